@@ -129,6 +129,48 @@ def check_encoding(formula, variables, types, fanin):
     return True, {"models": len(sat), "variables": top, "clauses": len(clauses)}
 
 
+def check_consistent_valuations(formula, variables, types, fanin):
+    """The general form (cyclic circuits included): the models of the clause set, restricted to the node variables, are
+    exactly the valuations of all nodes in which every gate equals its function of its fan-in values; every such
+    valuation has exactly one extension to the auxiliary variables."""
+    from ..gates import bool_gate as gate_value
+
+    ids = dict(variables._ids)
+    nodes = list(types)
+    for n in nodes:
+        if n not in ids:
+            return False, {"problem": "node has no variable", "node": n}
+    top = max([variables.top] + [abs(l) for c in formula.clauses for l in c])
+    if top > 16:
+        raise AnalysisError(f"model circuit needs {top} variables; too many to enumerate")
+    clauses = [list(c) for c in formula.clauses]
+    got = {}
+    for bits in itertools.product([False, True], repeat=top):
+        if all(any((bits[abs(l) - 1] if l > 0 else not bits[abs(l) - 1]) for l in c) for c in clauses):
+            key = tuple(bits[ids[n] - 1] for n in nodes)
+            got[key] = got.get(key, 0) + 1
+    n_cons = 0
+    for vals in itertools.product([False, True], repeat=len(nodes)):
+        v = dict(zip(nodes, vals))
+        cons = True
+        for n in nodes:
+            t = types[n]
+            if t in ("input", "bb_output") or (t in ("buf", "not", "bb_input") and not fanin.get(n)):
+                continue
+            if v[n] != gate_value("buf" if t == "bb_input" else t, [v[f] for f in fanin[n]]):
+                cons = False
+                break
+        if cons:
+            n_cons += 1
+            if vals not in got:
+                return False, {"problem": "consistent valuation excluded (no model)", "valuation": v}
+            if got[vals] > 1:
+                return False, {"problem": "auxiliary variable not functionally determined", "valuation": v, "models": got[vals]}
+        elif vals in got:
+            return False, {"problem": "inconsistent valuation admitted", "valuation": v}
+    return True, {"consistent_valuations": n_cons, "variables": top, "clauses": len(clauses)}
+
+
 def run(chk):
     repo = chk.repo
     voc = reference_partition(repo)
@@ -233,6 +275,29 @@ def run(chk):
         formula, variables = r[1]
         ok, detail = check_encoding(formula, variables, types, fanin)
         chk.ob("C01.M.multi-gate", f"cnf::model::{mname}", ok, file=FILE, func="cnf", line=fi.node.lineno, fact=detail, expect="models == consistent valuations, one per startpoint assignment")
+    # cyclic circuits: a gate in its own fan-in (every type), latches, rings - possibly with no consistent valuation at all
+    I_ = ("input", [])
+    cyclic = {}
+    for t in ("and", "nand", "or", "nor", "xor", "xnor"):
+        cyclic[f"self-loop-{t}2"] = {"a": I_, "g": (t, ["g", "a"]), "o": ("buf", ["g"])}
+        cyclic[f"self-loop-{t}3"] = {"a": I_, "b": I_, "g": (t, ["a", "g", "b"])}
+        cyclic[f"self-loop-{t}1"] = {"g": (t, ["g"]), "a": I_, "o": ("and", ["g", "a"])}
+    cyclic["self-loop-not"] = {"g": ("not", ["g"])}
+    cyclic["self-loop-buf"] = {"g": ("buf", ["g"]), "a": I_, "o": ("xor", ["g", "a"])}
+    cyclic["nor-latch"] = {"s": I_, "r": I_, "q": ("nor", ["r", "qn"]), "qn": ("nor", ["s", "q"])}
+    cyclic["nand-latch-with-constant"] = {"s": I_, "w": ("1", []), "q": ("nand", ["s", "qn"]), "qn": ("nand", ["w", "q"])}
+    cyclic["ring-of-three-inverters"] = {"n1": ("not", ["n3"]), "n2": ("not", ["n1"]), "n3": ("not", ["n2"])}
+    cyclic["xor-ring"] = {"a": I_, "p": ("xor", ["a", "q"]), "q": ("xnor", ["p", "a"])}
+    cyclic["loop-through-blackbox-input-pin"] = {"a": I_, "u.d": ("bb_input", ["g"]), "g": ("nand", ["a", "g"]), "u.q": ("bb_output", []), "o": ("or", ["u.q", "g"])}
+    for mname, spec in cyclic.items():
+        r, types, fanin = encode(spec)
+        n_eval += 1
+        if r[0] != "return":
+            chk.ob("C01.M.cyclic", f"cnf::cyclic::{mname}", False, file=FILE, func="cnf", line=fi.node.lineno, fact={"raises": str(r)[:120]})
+            continue
+        formula, variables = r[1]
+        ok, detail = check_consistent_valuations(formula, variables, types, fanin)
+        chk.ob("C01.M.cyclic", f"cnf::cyclic::{mname}", ok, file=FILE, func="cnf", line=fi.node.lineno, fact=detail, expect="models restricted to the nodes == the consistent valuations of the (cyclic) circuit")
     # the shared corner-case corpus (feed-through ports, constants, shared operand sets, adversarial names)
     from ..corpus import corpus
 
@@ -350,5 +415,49 @@ def run(chk):
             ok = r[0] == "return" and isinstance(r[1], dict) and r[1] == want and all(isinstance(x, bool) for x in r[1].values())
             chk.ob("C01.R.model-readback", f"solve::{case}", ok and seen_asm == [asm], file=FILE, func="solve", line=fs.node.lineno,
                    fact={"model": model, "ids": ids, "result": str(r[1])[:200], "assumptions_forwarded": seen_asm == [asm]}, expect=want)
+    # ---- P: solve() end to end (cnf + add_assumptions + construct_solver + solve from source, DPLL solver model) ----
+    from ..corpus import corpus as _corpus
+    from ..refmodel import build as _build
+    from ..satpipe import agrees, consistent_valuations, pipeline_package
+
+    pipe_models = {f"cyclic::{k_}": _build(sp_) for k_, sp_ in cyclic.items() if len(sp_) <= 5}
+    pipe_models.update({f"model::{k_}": _build(sp_) for k_, sp_ in multi.items() if k_ in ("constants", "blackbox-pins", "single-input-demotion", "same-nets-under-several-parity-gates")})
+    for k_, tags, cc in _corpus(chk.tier, want=("feedthrough", "const", "dead", "reconv")):
+        if len(cc.nodes()) <= 9:
+            pipe_models[f"corpus::{k_}"] = cc
+    n_pipe = 0
+    for polarity in (False, True):
+        PP = pipeline_package(repo, polarity)
+        for mname, cc in pipe_models.items():
+            cons = consistent_valuations(cc)
+            nodes = sorted(cc.nodes())
+            asms = [None, {}]
+            for n_ in nodes:
+                asms += [{n_: True}, {n_: False}]
+            for n1, n2 in list(itertools.combinations(nodes, 2))[: (6 if chk.tier == "quick" else 40)]:
+                asms += [{n1: True, n2: False}, {n1: False, n2: True}, {n1: 1, n2: 1}]
+            prob = None
+            n_pipe += len(asms)  # (the first disagreement ends a model circuit's loop; the floor counts the planned evaluations)
+            for asm in asms:
+                r = PP.call(FILE, "solve", cc, dict(asm) if asm is not None else None)
+                want_any = [v for v in cons if agrees(v, asm)]
+                if r[0] != "return":
+                    prob = {"assumptions": str(asm), "problem": f"solve raises {r[1]}", "consistent_valuations": len(want_any)}
+                elif r[1] is False:
+                    if want_any:
+                        prob = {"assumptions": str(asm), "problem": "solve returns False although a consistent valuation agrees with the assumptions", "valuation": want_any[0]}
+                elif not isinstance(r[1], dict) or set(r[1]) != set(nodes):
+                    prob = {"assumptions": str(asm), "problem": "result is not a valuation of all nodes", "result": str(r[1])[:120]}
+                elif not want_any:
+                    prob = {"assumptions": str(asm), "problem": "solve returns a valuation although none is consistent with the assumptions", "result": str(r[1])[:160]}
+                elif {k2: bool(v2) for k2, v2 in r[1].items()} not in want_any:
+                    prob = {"assumptions": str(asm), "problem": "returned valuation is not a consistent valuation agreeing with the assumptions", "result": str(r[1])[:200]}
+                if prob:
+                    break
+            chk.ob("C01.P.solve-end-to-end", f"solve::{mname}::{'positive' if polarity else 'negative'}-branching", prob is None, file=FILE, func="solve", line=fs.node.lineno,
+                   fact=prob or {"assumption_sets": len(asms), "consistent_valuations": len(cons)}, expect="False iff no consistent valuation agrees with the assumptions, else one of them")
+        r = PP.call(FILE, "solve", next(iter(pipe_models.values())), {"ghost": True})
+        chk.ob("C01.P.solve-end-to-end", f"solve::non-node assumption::{'positive' if polarity else 'negative'}-branching", r[:2] == ("raise", "ValueError"), file=FILE, func="solve", fact={"result": str(r)[:80]}, expect="ValueError")
+    chk.floor("solve() pipeline evaluations", n_pipe, 300)
     chk.floor("encoder evaluations", n_eval, 30)
     chk.extra["arity_bound"] = K
